@@ -75,7 +75,18 @@ func (t *TwoPhaseAction) GetRollbackMethodName() string {
 }
 
 func (t *TwoPhaseAction) Prepare(ctx context.Context, params interface{}) (bool, error) {
-	values := []reflect.Value{reflect.ValueOf(ctx), reflect.ValueOf(params)}
+	paramValue := reflect.ValueOf(params)
+	if !paramValue.IsValid() {
+		// params is an untyped nil: reflect.Value.Call refuses the zero Value, pass the zero value of
+		// the declared parameter type (the element type for a variadic prepare method) instead
+		methodType := t.prepareMethod.Type()
+		paramType := methodType.In(methodType.NumIn() - 1)
+		if methodType.IsVariadic() {
+			paramType = paramType.Elem()
+		}
+		paramValue = reflect.Zero(paramType)
+	}
+	values := []reflect.Value{reflect.ValueOf(ctx), paramValue}
 	res := t.prepareMethod.Call(values)
 	var (
 		r0   = res[0].Interface()
